@@ -338,4 +338,89 @@ example :
       ≠ runVerdict demoTable ["succeeded"] "r" [.ser "r" "n" "succeeded" none none, .ser "r" "n" "running" none none] := by
   decide
 
+/-! ## Locality: a verdict depends only on the records of its own run / its own launch attempt
+
+A retried launch puts two attempts under one launch id into one record set; records of other runs, other launches and
+other attempts of the same launch id never change the verdict of `(launch, attempt)`. -/
+
+/-- Does the record belong to run `r`? -/
+def aboutRun (r : String) : Rec → Bool
+  | .pStart r' _ _ _ => r' == r
+  | .pEnd r' _ => r' == r
+  | .ser r' _ _ _ _ => r' == r
+  | _ => false
+
+/-- Does the record belong to launch attempt `k` (its lifecycle records and the starts of its runs)? -/
+def aboutLaunch (k : String × Nat) : Rec → Bool
+  | .rsStart l a => (l, a) == k
+  | .rsEnd l a => (l, a) == k
+  | .pStart _ _ (some fk) _ => fk == k
+  | _ => false
+
+theorem stepRun_ignores (r : String) (s : RunState) (a : Rec) (h : aboutRun r a = false) : stepRun r s a = s := by
+  cases a <;> simp_all [stepRun, aboutRun]
+
+theorem foldl_stepRun_ignores (r : String) (extra : List Rec) (h : ∀ a ∈ extra, aboutRun r a = false) (s : RunState) :
+    extra.foldl (stepRun r) s = s := by
+  induction extra generalizing s with
+  | nil => rfl
+  | cons a rest ih =>
+    simp only [List.foldl_cons]
+    rw [stepRun_ignores r s a (h a (by simp))]
+    exact ih (fun b hb => h b (List.mem_cons_of_mem _ hb)) s
+
+/-- **C13 (locality, runs).** Records that do not belong to run `r` do not change its verdict. -/
+theorem run_verdict_local (tbl : RunTable) (terminal : List String) (r : String) (rs extra : List Rec)
+    (h : ∀ a ∈ extra, aboutRun r a = false) :
+    runVerdict tbl terminal r (rs ++ extra) = runVerdict tbl terminal r rs := by
+  simp only [runVerdict, aggRun, List.foldl_append]
+  rw [foldl_stepRun_ignores r extra h]
+
+theorem stepLaunch_ignores (k : String × Nat) (s : LaunchState) (a : Rec) (h : aboutLaunch k a = false) : stepLaunch k s a = s := by
+  cases a with
+  | rsStart l at_ => simp_all [stepLaunch, aboutLaunch]
+  | rsEnd l at_ => simp_all [stepLaunch, aboutLaunch]
+  | pStart r c fk t =>
+    cases fk with
+    | none => simp [stepLaunch]
+    | some fk => simp_all [stepLaunch, aboutLaunch]
+  | pEnd r t => simp [stepLaunch]
+  | ser r n st t f => simp [stepLaunch]
+  | other => simp [stepLaunch]
+
+theorem foldl_stepLaunch_ignores (k : String × Nat) (extra : List Rec) (h : ∀ a ∈ extra, aboutLaunch k a = false) (s : LaunchState) :
+    extra.foldl (stepLaunch k) s = s := by
+  induction extra generalizing s with
+  | nil => rfl
+  | cons a rest ih =>
+    simp only [List.foldl_cons]
+    rw [stepLaunch_ignores k s a (h a (by simp))]
+    exact ih (fun b hb => h b (List.mem_cons_of_mem _ hb)) s
+
+/-- **C13 (locality, launches).** Records that belong neither to launch attempt `k` nor to one of its runs — other
+    runs, other launches, *other attempts of the same launch id* — do not change its verdict, roll-up counts included. -/
+theorem launch_verdict_local (rtbl : RunTable) (ltbl : LaunchTable) (terminal : List String) (k : String × Nat)
+    (rs extra : List Rec)
+    (h1 : ∀ a ∈ extra, aboutLaunch k a = false)
+    (h2 : ∀ r ∈ (aggLaunch k rs).runs, ∀ a ∈ extra, aboutRun r a = false) :
+    launchVerdict rtbl ltbl terminal k (rs ++ extra) = launchVerdict rtbl ltbl terminal k rs := by
+  have hagg : aggLaunch k (rs ++ extra) = aggLaunch k rs := by
+    simp only [aggLaunch, List.foldl_append]
+    exact foldl_stepLaunch_ignores k extra h1 _
+  have hsts : (ssort (aggLaunch k rs).runs).map (fun r => (runVerdict rtbl terminal r (rs ++ extra)).status)
+      = (ssort (aggLaunch k rs).runs).map (fun r => (runVerdict rtbl terminal r rs).status) := by
+    apply List.map_congr_left
+    intro r hr
+    rw [run_verdict_local rtbl terminal r rs extra (h2 r (mem_ssort.mp hr))]
+  simp only [launchVerdict, hagg, hsts]
+
+/-- Non-vacuity: a complete second attempt keeps its verdict when the records of a crashed first attempt under the same
+    launch id are added. -/
+example :
+    let a2 := [Rec.rsStart "L" 2, .pStart "r2" ["n"] (some ("L", 2)) none, .ser "r2" "n" "succeeded" none none, .pEnd "r2" none, .rsEnd "L" 2]
+    let a1 := [Rec.rsStart "L" 1, .pStart "r1" ["n"] (some ("L", 1)) none]
+    (∀ a ∈ a1, aboutLaunch ("L", 2) a = false) ∧ (∀ r ∈ (aggLaunch ("L", 2) a2).runs, ∀ a ∈ a1, aboutRun r a = false)
+    ∧ (aggLaunch ("L", 2) a2).runs = ["r2"] := by
+  decide
+
 end SemantivaModel.Aggregator
